@@ -44,6 +44,16 @@ chk('C13',
     COMMON_NOTE, 'bounded-exhaustive explicit-state enumeration of fragment texts vs reference separation, run on the real tokenizer',
     'DESIGN.md section 4 C13')
 
+chk('C01',
+    'Derivation exploration: all canonical molecules reachable by growth within the valence table (quick: <=2 atoms over 10 element/charge types with the full '
+    'rendering product, <=3 atoms over the same alphabet and <=4 atoms over C,N,O with a reduced rendering set; thorough: larger bounds and full products) plus 27 feature '
+    'molecules (charged, hypervalent, rings, aromatic templates, S-aryl) and a seed-selected slice; for every molecule the complete decision tree partition x descriptor '
+    'kinds x fragment order x start atoms x rendering style x constructor is enumerated and every leaf is resolved on the real MoleculeResolver and compared with the '
+    'molecule model (R-valence hydrogens) and with the resolution of the uncut molecule.',
+    COMMON_NOTE + ' The valence table and the SMILES renderer are validated per molecule against the uncut resolution.',
+    'bounded-exhaustive derivation exploration (molecule x cut x rendering) with model + differential oracle on the real resolver',
+    'DESIGN.md section 4 C01')
+
 NOT_YET = {}
 
 def main():
